@@ -80,6 +80,14 @@ def findNet : Err → Option Err
   | .plain _ => none
   | e => some e
 
+/-- the test added by the repair in the `*net.OpError` branch: the inner error is printed as is
+    iff `errors.As(t.Err, &innerErr)` fails or finds a `syscall.Errno` -/
+def verbatimInner (inner : Err) : Bool :=
+  match findNet inner with
+  | none => true
+  | some (.errno _) => true
+  | some _ => false
+
 def elided : Str := asc "[scrubbed]"
 
 def typeOnly (goType : Str) : Str := asc "network error: <" ++ goType ++ asc ">"
@@ -95,12 +103,8 @@ def walk (fixed : Bool) (top : Err) : Err → Str
     if ptr then asc "unknown network " ++ elided else typeOnly (asc "net.UnknownNetworkError")
   | .opError op _ _ _ inner =>
     op ++ asc ": " ++
-      (if fixed then
-        match findNet inner with
-        | none => inner.error
-        | some (.errno _) => inner.error
-        | some _ => walk fixed inner inner
-      else inner.error)
+      (if fixed && !verbatimInner inner then walk fixed inner inner   -- `ElideError(t.Err)`
+       else inner.error)
   | .urlError _ _ _ => typeOnly (asc "*url.Error")
   | .errno _ => typeOnly (asc "syscall.Errno")
   | .otherNet goType _ => typeOnly goType
